@@ -212,6 +212,47 @@ class FlipIfElse(ast.NodeTransformer):
         return ast.copy_location(ast.IfExp(t, n.orelse, n.body), n)
 
 
+
+class TernaryToIf(ast.NodeTransformer):
+    """x = a if c else b  ->  if c: x = a  else: x = b   (single plain-name target)"""
+    def visit_Assign(self, n):
+        if len(n.targets) == 1 and isinstance(n.targets[0], ast.Name) and isinstance(n.value, ast.IfExp):
+            t = n.targets[0]
+            a = ast.copy_location(ast.Assign([ast.Name(t.id, ast.Store())], n.value.body), n)
+            b = ast.copy_location(ast.Assign([ast.Name(t.id, ast.Store())], n.value.orelse), n)
+            return ast.copy_location(ast.If(n.value.test, [a], [b]), n)
+        return n
+
+
+class MergeAssigns(ast.NodeTransformer):
+    """a = e1; b = e2 (adjacent, plain names, e2 does not read a)  ->  a, b = e1, e2"""
+    def _merge(self, body):
+        out, i = [], 0
+        while i < len(body):
+            s1 = body[i]
+            if i + 1 < len(body):
+                s2 = body[i + 1]
+                if all(isinstance(x, ast.Assign) and len(x.targets) == 1 and isinstance(x.targets[0], ast.Name) for x in (s1, s2)) and \
+                        s1.targets[0].id != s2.targets[0].id and \
+                        not any(isinstance(y, ast.Name) and y.id == s1.targets[0].id for y in ast.walk(s2.value)) and \
+                        not any(isinstance(y, (ast.Call, ast.Yield, ast.Await)) for v in (s1.value, s2.value) for y in ast.walk(v) if isinstance(y, ast.Call) and isinstance(y.func, ast.Attribute) and y.func.attr.endswith('_')):
+                    out.append(ast.copy_location(ast.Assign([ast.Tuple([ast.Name(s1.targets[0].id, ast.Store()), ast.Name(s2.targets[0].id, ast.Store())], ast.Store())],
+                                                            ast.Tuple([s1.value, s2.value], ast.Load())), s1))
+                    i += 2
+                    continue
+            out.append(s1)
+            i += 1
+        return out
+
+    def generic_visit(self, node):
+        super().generic_visit(node)
+        for fld in ('body', 'orelse', 'finalbody'):
+            b = getattr(node, fld, None)
+            if isinstance(b, list) and b and isinstance(b[0], ast.stmt) and not isinstance(node, (ast.Module, ast.ClassDef)):
+                setattr(node, fld, self._merge(b))
+        return node
+
+
 def overlay(mode):
     ov = {}
     for dp, dn, fn in os.walk(os.path.join(ROOT, 'pypose')):
@@ -251,6 +292,12 @@ def overlay(mode):
                 elif mode == 'elseflip':
                     tree = FlipIfElse().visit(tree)
                     ast.fix_missing_locations(tree)
+                elif mode == 'ternary2if':
+                    tree = TernaryToIf().visit(tree)
+                    ast.fix_missing_locations(tree)
+                elif mode == 'merge':
+                    tree = MergeAssigns().visit(tree)
+                    ast.fix_missing_locations(tree)
                 elif mode == 'assert2raise':
                     tree = AssertToRaise().visit(tree)
                     ast.fix_missing_locations(tree)
@@ -264,7 +311,7 @@ def overlay(mode):
 _OV_CACHE = {}
 
 
-def run_for(prop, modes=('unparse', 'rename', 'rettemp', 'split', 'swap', 'assert2raise', 'meth2func', 'dimkw', 'cmpflip', 'elseflip'), verbose=True):
+def run_for(prop, modes=('unparse', 'rename', 'rettemp', 'split', 'swap', 'assert2raise', 'meth2func', 'dimkw', 'cmpflip', 'elseflip', 'merge'), verbose=True):
     """battery restricted to one property's rules -> list of false alarms"""
     mod = importlib.import_module('sa.rules.' + prop.lower())
     out = []
@@ -289,7 +336,7 @@ def run_for(prop, modes=('unparse', 'rename', 'rettemp', 'split', 'swap', 'asser
 
 
 def main():
-    modes = sys.argv[1:] or ['unparse', 'rename', 'rettemp', 'split', 'swap', 'assert2raise', 'meth2func', 'dimkw', 'cmpflip', 'elseflip']
+    modes = sys.argv[1:] or ['unparse', 'rename', 'rettemp', 'split', 'swap', 'assert2raise', 'meth2func', 'dimkw', 'cmpflip', 'elseflip', 'merge']
     bad = 0
     for mode in modes:
         ov = overlay(mode)
